@@ -28,6 +28,8 @@ structure PlainP (P : Program) (d : DagRef) : Prop where
   noHead   : ∀ n, P.g.isOneofHead n = false
   noRecur  : ∀ n kw i k v, P.body n kw i k = .ret v → v.isRecur = false ∧ v.isExc = false
   noRecurD : ∀ n kw, (P.dflt n kw).isRecur = false ∧ (P.dflt n kw).isExc = false
+  /-- every `get_default` returns (a failing default is outside this fragment; the engine model covers it) -/
+  dfltOk   : ∀ n, P.dfltRaise n = none
   pools    : P.poolsOk = true
   main     : ∀ s : St, (∀ n, s.opened n = false) → reducedRef P s P.g.input P.g.output false false false = some d
   dest     : d.dest = some P.g.output
@@ -1348,7 +1350,7 @@ theorem node_afterBody_plain {P : Program} {d : DagRef} (hp : PlainP P d) {s s1 
   have hdf : ∀ obs', Retry.decide (P.cfg (L[i]'x.hi)) k (P.body (L[i]'x.hi) kw inv k) = .done .default →
       PInv P d val (nodeDefault c s1 obs' d (L[i]'x.hi) [] kw).1 := by
     intro obs' hd
-    simp only [nodeDefault]
+    rw [nodeDefault_of_none _ _ _ _ _ _ _ (by rw [x.cP]; exact hp.dfltOk _)]
     refine node_success_plain hp x hr0 _ _ (by rw [x.cP]; exact hp.noRecurD _ _) ?_
     intro hsol
     have a := hatt hsol
@@ -2747,11 +2749,12 @@ theorem reducedRef_congr_opened (P : Program) (s : St) (_h : ∀ n, s.opened n =
 theorem plainP_of_check {P : Program} {d : DagRef} (hc : plainCheck P d = true)
     (hsw : ∀ n, P.g.isSwitch n = false) (hhd : ∀ n, P.g.isOneofHead n = false)
     (hr : ∀ n kw i k v, P.body n kw i k = .ret v → v.isRecur = false ∧ v.isExc = false)
-    (hrd : ∀ n kw, (P.dflt n kw).isRecur = false ∧ (P.dflt n kw).isExc = false) : PlainP P d := by
+    (hrd : ∀ n kw, (P.dflt n kw).isRecur = false ∧ (P.dflt n kw).isExc = false)
+    (hdo : ∀ n, P.dfltRaise n = none) : PlainP P d := by
   unfold plainCheck at hc
   simp only [Bool.and_eq_true, decide_eq_true_eq, Bool.not_eq_true', List.all_eq_true, List.isEmpty_eq_false_iff] at hc
   obtain ⟨⟨⟨⟨⟨⟨⟨⟨⟨h1, h2⟩, h3⟩, h4⟩, h5⟩, h6⟩, h7⟩, h8⟩, h9⟩, h10⟩ := hc
-  exact { noSwitch := hsw, noHead := hhd, noRecur := hr, noRecurD := hrd, pools := h10,
+  exact { noSwitch := hsw, noHead := hhd, noRecur := hr, noRecurD := hrd, dfltOk := hdo, pools := h10,
           main := fun s hs => by rw [reducedRef_congr_opened P s hs]; exact h1,
           dest := h2, notRec := h3, notOneof := h4, predsIn := h5, outIn := h6, nodup := h7, gne := h8,
           noCase := fun e he => by have := (h9 e he).1; simpa using this,
